@@ -306,8 +306,9 @@ def main(argv):
             "wall_s": round(wall, 2),
             "violations": len(violations),
         }
-        os.makedirs(os.path.join(VERIF, "evidence"), exist_ok=True)
-        evpath = os.path.join(VERIF, "evidence", prop + ".json")
+        evdir = os.environ.get("VERIF_EVIDENCE_DIR") or os.path.join(VERIF, "evidence")
+        os.makedirs(evdir, exist_ok=True)
+        evpath = os.path.join(evdir, prop + ".json")
         with open(evpath, "w") as fh:
             json.dump(jsonable(ev), fh, indent=1, sort_keys=True)
         try:
